@@ -1,6 +1,7 @@
 import MosnVerif.Lemmas.Subset
 import MosnVerif.Lemmas.SubsetRequest
 import MosnVerif.Lemmas.SubsetSlice
+import MosnVerif.Lemmas.SubsetKeys
 /-!
 # C15 — subset load balancing honours metadata and its fallback policy (property theorems only)
 
@@ -620,5 +621,105 @@ example :
     (requestTargets zoneHosts [["zone"]] 1 [] (some [("zone", "a")]) none).map (·.name) = ["h0"] ∧
     proxyChoose rrChoose (lbF zoneHosts [["zone"]] 0 []) (some [("version", "v2"), ("zone", "a")]) 0 0 = none ∧
     (requestTargets zoneHosts [["zone"]] 0 [] (some [("zone", "a")]) none).map (·.name) = ["h0"] := by decide
+
+/-! ### selector keys: `GenerateSubsetKeys` as regenerated (`Gen.SubsetKeys`) -/
+
+/-- **keys_exact**: the key lists `GenerateSubsetKeys` (regenerated statement by statement: normalise with `InitSet`,
+compare with every list kept so far, append when none is equal) hands to both builders are, as a set of key lists,
+exactly the configured selectors' sorted key lists — for arbitrary key strings (empty, prefixes or concatenations of
+one another, containing any separator): a list is in the result iff it is strictly sorted and has the key set of some
+configured selector; every configured selector's sorted key list occurs exactly once; nothing occurs twice. -/
+theorem keys_exact (raw : List (List Key)) :
+    let ks := Gen.SubsetKeys.generateSubsetKeys initSet raw
+    (∀ s, s ∈ ks ↔ strictSorted s = true ∧ ∃ r ∈ raw, ∀ k, k ∈ s ↔ k ∈ r) ∧
+    (∀ r ∈ raw, ∃ s, ks.count s = 1 ∧ strictSorted s = true ∧ ∀ k, k ∈ s ↔ k ∈ r) ∧
+    ks.Nodup := by
+  intro ks
+  have hks : ks = generateSubsetKeys raw := genKeys_eq raw
+  rw [hks]
+  refine ⟨fun s => ⟨fun h => ?_, fun ⟨hs, r, hr, h⟩ => ?_⟩, fun r hr => ?_, generateSubsetKeys_nodup raw⟩
+  · obtain ⟨r, hr, _, h2, h3⟩ := (selectors_normalised raw s).mp h
+    exact ⟨h2, r, hr, h3⟩
+  · exact (sorted_mem_generateSubsetKeys raw s hs).mpr ⟨r, hr, fun k => (h k).symm⟩
+  · have hm : initSet r ∈ generateSubsetKeys raw := (mem_generateSubsetKeys raw _).mpr ⟨r, hr, rfl⟩
+    exact ⟨initSet r, count_eq_one_of_nodup _ _ (generateSubsetKeys_nodup raw) hm,
+      (strictSorted_iff _).mpr (initSet_sorted r), fun k => mem_initSet r k⟩
+
+/-- **selector_request_confined** (`keys_exact` composed with `find_refines` / `fallback_exact` through both builders):
+a request whose criteria's key set equals the key set of ANY configured selector `r` (whatever the other selectors
+are and whatever strings the keys are) finds its key list among the regenerated subset keys, and on the balancers
+built from them — filtering builder and pre-index builder — it is confined to the healthy hosts whose metadata contain
+all its pairs whenever there is one (and is sent to one); only when there is none does the fallback pool apply. -/
+theorem selector_request_confined (inner : Inner) (hin : InnerOK inner) (hosts : List Host) (raw : List (List Key))
+    (policy : Nat) (dflt : Path) (grow : Grow) (shuf : List Val → List Val) (hshuf : ∀ l v, v ∈ shuf l ↔ v ∈ l)
+    (c : Path) (hs : strictSorted (c.map (·.1)) = true) (d1 d2 : Nat)
+    (r : List Key) (hr : r ∈ raw) (hne : c ≠ []) (hk : ∀ k, k ∈ r ↔ k ∈ c.map (·.1)) :
+    let keys := Gen.SubsetKeys.generateSubsetKeys initSet raw
+    let lbs : List LB := [newFilter hosts (policy : Int) dflt keys, newPreS grow shuf hosts (policy : Int) dflt keys]
+    c.map (·.1) ∈ keys ∧
+    ∀ lb ∈ lbs,
+      ((∃ h ∈ hosts, contains h c = true ∧ h.healthy = true) →
+        (∀ h, chooseHost inner lb (.crit c) d1 d2 = some h → h ∈ hosts ∧ contains h c = true ∧ h.healthy = true) ∧
+        ∃ h, chooseHost inner lb (.crit c) d1 d2 = some h) ∧
+      ((∀ h ∈ hosts, contains h c = true → h.healthy = false) →
+        ∀ h, chooseHost inner lb (.crit c) d1 d2 = some h →
+          h ∈ specFallbackPool hosts policy dflt ∧ h.healthy = true) := by
+  intro keys lbs
+  have hkeys : keys = generateSubsetKeys raw := genKeys_eq raw
+  have hsel : selectorExists raw c = true := (selectorExists_iff raw c).mpr ⟨hne, r, hr, hk⟩
+  have hF : newFilter hosts (policy : Int) dflt keys = lbF hosts raw policy dflt := by rw [hkeys]; rfl
+  have hP : newPreS grow shuf hosts (policy : Int) dflt keys = lbPS grow shuf hosts raw policy dflt := by rw [hkeys]; rfl
+  have heq := (builders_equiv hosts raw policy dflt grow shuf hshuf inner).2.1 (.crit c) d1 d2
+  refine ⟨?_, ?_⟩
+  · rw [hkeys]
+    exact (sorted_mem_generateSubsetKeys raw _ hs).mpr ⟨r, hr, hk⟩
+  · intro lb hlb
+    have hch : chooseHost inner lb (.crit c) d1 d2 = chooseHost inner (lbF hosts raw policy dflt) (.crit c) d1 d2 := by
+      simp only [lbs, List.mem_cons, List.mem_nil_iff, or_false] at hlb
+      rcases hlb with rfl | rfl
+      · rw [hF]
+      · rw [hP, ← heq]
+    rw [hch]
+    exact ⟨fun hh => subset_only inner hin hosts raw policy dflt c hs d1 d2 hsel hh,
+      fun hno => (fallback_exact inner hin hosts raw policy dflt c hs d1 d2 (Or.inr hno)).1⟩
+
+/-- adversarial selector configuration: keys that concatenate to the same string, a key containing the separator, the
+empty key, a permuted duplicate -/
+def advRaw : List (List Key) := [["version", "app"], ["appversion"], ["a,b"], ["a", "b"], ["", "ab"], ["ab"], ["app", "version"]]
+def advHosts : List Host :=
+  [ { name := "h0", md := [("app", "x"), ("version", "1")], healthy := true },
+    { name := "h1", md := [("appversion", "1")], healthy := true },
+    { name := "h2", md := [("a,b", "1"), ("ab", "1")], healthy := true } ]
+
+example : Gen.SubsetKeys.generateSubsetKeys initSet advRaw =
+    [["app", "version"], ["appversion"], ["a,b"], ["a", "b"], ["", "ab"], ["ab"]] := by decide
+-- the hypotheses of `selector_request_confined` at the second selector, and what it yields on both balancers
+example : strictSorted ([("appversion", "1")].map (·.1)) = true ∧ ["appversion"] ∈ advRaw ∧
+    (∃ h ∈ advHosts, contains h [("appversion", "1")] = true ∧ h.healthy = true) := by decide
+example :
+    let keys := Gen.SubsetKeys.generateSubsetKeys initSet advRaw
+    (chooseHost rrChoose (newFilter advHosts 0 [] keys) (.crit [("appversion", "1")]) 0 0).map (·.name) = some "h1" ∧
+    (chooseHost rrChoose (newPreS goGrow id advHosts 0 [] keys) (.crit [("a,b", "1")]) 0 0).map (·.name) = some "h2" := by
+  decide
+
+/-- `GenerateSubsetKeys` as it would be with a seen-map keyed by `strings.Join(keys, sep)` (what the extractor would
+regenerate for that shape: state = result list × stored map keys) -/
+def joinKeyed (sep : String) (raw : List (List Key)) : List (List Key) :=
+  (raw.foldl (fun (st : List (List Key) × List String) ks =>
+    let s := initSet ks
+    let id := String.intercalate sep s
+    if st.2.contains id then st else (st.1 ++ [s], st.2 ++ [id])) ([], [])).1
+
+/-- **de-duplicating by a joined string loses selectors** (`decide`): with the empty separator `[app version]` and
+`[appversion]` collide, with `","` `[a b]` and `[a,b]` do; the later selector is dropped (so `keys_exact` fails), no
+subset is built for it, and a request for `appversion=1` — a configured selector, `h1` carries the pair — gets no host
+under NoFallBack and `h0`, which does not carry the pair, under AnyEndPoint. -/
+example :
+    ["appversion"] ∈ advRaw ∧ ["appversion"] ∉ joinKeyed "" advRaw ∧
+    ["a", "b"] ∈ advRaw ∧ ["a", "b"] ∉ joinKeyed "," advRaw ∧
+    chooseHost rrChoose (newFilter advHosts 0 [] (joinKeyed "" advRaw)) (.crit [("appversion", "1")]) 0 0 = none ∧
+    (chooseHost rrChoose (newPreS goGrow id advHosts 1 [] (joinKeyed "" advRaw)) (.crit [("appversion", "1")]) 0 2).map (·.name)
+      = some "h0" ∧
+    (specTargets advHosts advRaw 0 [] [("appversion", "1")]).map (·.name) = ["h1"] := by decide
 
 end MosnVerif.Props.C15
